@@ -17,6 +17,7 @@ features(case, wres)    structural fingerprints of the known defect classes
                         present in one simplify case (used only to key findings).
 All randomness comes from the random.Random passed in.
 """
+import re
 from fractions import Fraction
 
 TWO_TERM = ('R', 'NR', 'C', 'L', 'V', 'I', 'Z', 'Y', 'W', 'AM')
@@ -78,17 +79,17 @@ class Builder:
         return nm
 
 
-def gen_netlist(rng, polarity='mixed', icmode='none', srckw='same', extras=True, ground_mid=False):
+def gen_netlist(rng, polarity='mixed', icmode='none', srckw='same', extras=True, ground_mid=False, small=False):
     """returns dict(lines, tags).  polarity: 'same' (every like element of a group
     points the same way along the chain / across the pair) | 'mixed'.
     icmode: none | equal | unequal | partial.  srckw: same | mixed."""
     b = Builder(rng)
-    n = rng.randint(1, 3)
+    n = rng.randint(1, 2) if small else rng.randint(1, 3)
     nodes = ['0'] + [str(i) for i in range(1, n + 1)]
     edges = []
     for i in range(1, n + 1):
         edges.append((nodes[i], nodes[rng.randint(0, i - 1)]))
-    for _ in range(rng.randint(1, 3)):
+    for _ in range(rng.randint(1, 1 if small else 2)):
         if n >= 1:
             i, j = rng.sample(range(0, n + 1), 2)
             edges.append((nodes[i], nodes[j]))
@@ -185,7 +186,8 @@ def gen_netlist(rng, polarity='mixed', icmode='none', srckw='same', extras=True,
                 b.lines.append('%s %s 0 %s' % (b.name('R'), o, fs(val(rng))))
                 b.tags.add('E')
             elif k == 'gndR':
-                b.elem('R', rng.choice(anyn), '0', rng.random() < 0.5)
+                x = rng.choice([t for t in anyn if t != '0'] or ['1'])
+                b.elem('R', x, '0', rng.random() < 0.5)
             elif k == 'disc':
                 b.elem('R', b.fresh(), b.fresh(), False)
                 b.tags.add('disconnected')
@@ -278,11 +280,12 @@ def chains(elems):
     return [(g[0], g[1]) for g in groups.values() if len(g[0]) > 1], uf
 
 
-def oracle(case, w):
+def oracle(case, orig_elems, new_elems, so, sn):
     """list of (kind, detail) electrical differences between the original and the
-    rewritten circuit; [] when the retained voltages/currents agree."""
+    rewritten circuit; [] when the retained voltages/currents agree; None when
+    the original circuit has no solution to compare with."""
     bad = []
-    so, sn = w.get('solve_orig'), w.get('solve_new')
+    w = {'orig': orig_elems, 'new': new_elems}
     if not so or 'error' in so:
         return None                      # original not solvable: nothing to compare
     if any(v is None for v in so['V'].values()):
@@ -292,9 +295,10 @@ def oracle(case, w):
     orig = {e['name']: e for e in w['orig']}
     new = {e['name']: e for e in w['new']}
     rename = case.get('node_rename') or {}
-    # components that survive with an unchanged line
+    simplify = case.get('op', 'simplify') in ('simplify', 'simplify_series', 'simplify_parallel', 'remove_dangling', 'remove_disconnected')
+    # components that survive (with an unchanged line, for simplify)
     for nm, e in orig.items():
-        if nm in new and (new[nm]['line'] == e['line'] or case.get('compare_all_named')):
+        if nm in new and (new[nm]['line'] == e['line'] or not simplify):
             for kind in ('cV', 'cI'):
                 a, b_ = so[kind].get(nm), sn[kind].get(nm)
                 if a is None and b_ is None:
@@ -306,7 +310,7 @@ def oracle(case, w):
     chs, uf = chains(w['orig'])
     gone = {nm for nm in orig if nm not in new or new[nm]['line'] != orig[nm]['line']}
     for names, inter in chs:
-        if names & gone:
+        if simplify and names & gone:
             for cl in inter:
                 if not cl.startswith('0'):
                     exempt.add(cl)
@@ -320,3 +324,70 @@ def oracle(case, w):
         if b_ is None or Fraction(a) != Fraction(b_):
             bad.append(('node-V', '%s: %s -> %s' % (n, a, b_)))
     return bad
+
+
+def sensed_interior(wr):
+    """the netlist has a component with more than two terminals (a controlled
+    source whose control nodes may sit inside a series chain)"""
+    return any(len(e['nodes']) > 2 for e in wr.get('orig', []))
+
+
+def add_wire_split(rng, lines):
+    lines = list(lines)
+    nodes = sorted({t for l in lines for t in l.split()[1:3]})
+    x = rng.choice(nodes)
+    x2 = x + '_1'
+    cand = [i for i, l in enumerate(lines) if x in l.split()[1:3]]
+    if len(cand) >= 2 and not any(x2 in l.split() for l in lines):
+        i = rng.choice(cand)
+        p = lines[i].split()
+        done = False
+        for k in (1, 2):
+            if p[k] == x and not done:
+                p[k] = x2
+                done = True
+        lines[i] = ' '.join(p)
+        lines.append('W %s %s' % ((x, x2) if rng.random() < 0.5 else (x2, x)))
+    return lines
+
+
+def symbolise(rng, lines):
+    """replace the numeric values by symbols; returns (lines, {symbol: value})"""
+    out, point = [], {}
+    for ln in lines:
+        t = ln.split()
+        ty = t[0][0]
+        if t[0][0:2] == 'NR' or ty not in 'RCLVI':
+            out.append(ln)
+            continue
+        k = 3
+        if ty in 'VI' and len(t) > 4 and t[3] in ('dc', 'step'):
+            k = 4
+        if k < len(t) and '{' not in t[k] or (k < len(t) and re.fullmatch(r'\{-?\d+/\d+\}', t[k])):
+            sym = 'q%s' % t[0]
+            point[sym] = t[k].strip('{}')
+            t[k] = sym
+        out.append(' '.join(t))
+    return out, point
+
+
+def gen_switch_case(rng):
+    times = sorted(rng.sample([0, 1, 2, 3, 5, 8], rng.randint(1, 3)))
+    lines = ['V1 1 0 5']
+    node = 1
+    for i, T in enumerate(times):
+        kind = rng.choice(['no', 'nc'])
+        lines.append('SW%d %d %d %s %d' % (i + 1, node, node + 1, kind, T))
+        lines.append('R%d %d 0 %d' % (i + 1, node + 1, rng.randint(1, 9)))
+        node += 1
+    r = rng.random()
+    if r < 0.35:
+        t = Fraction(rng.choice(times))
+    elif r < 0.6:
+        t = Fraction(rng.choice(times)) + Fraction(1, 2)
+    elif r < 0.8:
+        t = Fraction(times[0]) - Fraction(rng.randint(1, 3), 2)
+    else:
+        t = Fraction(times[-1]) + rng.randint(1, 4)
+    op = 'switch' if rng.random() < 0.5 else 'switch_before'
+    return {'netlist': lines, 'op': op, 'args': {'t': '%d/%d' % (t.numerator, t.denominator)}, 's0': '2', 'tags': ['switch']}
